@@ -20,7 +20,8 @@ RULE = ('seeded generation of (packet type 0..6) x (16 payload classes) x '
         'plus distinct (class, decoded-kind) pairs of the round trip; plus an '
         'ambient slice: one Packet object broadcast to a WebSocket and a '
         'polling session of the real servers in both orders with the '
-        'contracts installed')
+        'contracts installed; every fourth shard with a replacement JSON '
+        'module installed as Packet.json (the json= option)')
 ASSUMPTIONS = ['reference encoder/decoder in vf/gen.py is a faithful reading '
                'of the statement', 'stdlib json and base64 are correct',
                'icontract evaluates the post-condition on every call']
